@@ -238,8 +238,8 @@ Print Assumptions C17_compress_sequences_round_trip.
 (* ================= round 2 ================= *)
 (* ---- a whole frame compressed through a registered producer (coq/Seq/SeqProducerFrame.v) ----
    producer_frame atpos: one producer call per block, each handed to ZSTD_copySequencesToSeqStoreExplicitBlockDelim;
-   atpos = false: the code as it is (ZSTD_buildSeqStore restarts ZSTD_sequencePosition at {0,0,0} in every block),
-   atpos = true: the copier is given the position of the block in the frame. *)
+   atpos = false: the code before fix: e3dc2db (ZSTD_buildSeqStore restarted ZSTD_sequencePosition at {0,0,0} in every block),
+   atpos = true: the copier is given the position of the block in the frame (the code since fix: e3dc2db). *)
 
 (* one block at position pos: the codes decode to the raw offsets, the lengths fill the block, and with validation on every
    stored sequence obeys the documented rule AT THE FRAME POSITION pos (C17_producer_store_sound is the instance pos = 0) *)
@@ -285,7 +285,7 @@ Theorem C17_producer_frame_memory_safe : forall cfg ers fb calls rep pos dec,
   not_oob (producer_frame true cfg ers fb calls rep pos dec).
 Proof. exact producer_frame_memory_safe. Qed.
 Print Assumptions C17_producer_frame_memory_safe.
-(* ... and for the code as it is (the finding below is about the rule, not about memory safety) *)
+(* ... and for the code before fix: e3dc2db (the finding below is about the rule, not about memory safety) *)
 Theorem C17_producer_frame_memory_safe_as_is : forall cfg ers fb calls rep pos dec,
   g_fixed cfg = true -> g_validate cfg = true -> g_wlog cfg <= 31 ->
   Forall (fun c => pc_size c + g_dict cfg + 3 < M32) calls ->
@@ -300,7 +300,7 @@ Example C17_producer_frame_example :
 Proof. eexists. split; [vm_compute; reflexivity|]. split; [repeat constructor|reflexivity]. Qed.
 
 (* finding C17-producer-validation-position-restarts-per-block, machine-checked on the model (closed terms):
-   (1) the code as it is refuses {off 1024, ll 0, ml 1024} as second block of a frame (a valid parse whenever block 1 repeats
+   (1) the code before fix: e3dc2db refuses {off 1024, ll 0, ml 1024} as second block of a frame (a valid parse whenever block 1 repeats
        block 0; the bound at frame position 1024 is 1024) - the position-correct variant accepts it and the rule holds;
    (2) with a dictionary it stores {off 2500, ll 1000, ml 24} in the sixth block of a frame with a 1 KiB window (bound at
        position 6120: 1024) and the stored frame violates blocks_rule - the position-correct variant refuses it *)
@@ -327,3 +327,13 @@ Theorem C17_dict_header_accepts_beyond_content : forall cfg content header pos m
   validate_fixed (with_dict cfg content) (pos + content + header) ml pos = false.
 Proof. exact dict_header_accepts_beyond_content. Qed.
 Print Assumptions C17_dict_header_accepts_beyond_content.
+
+(* finding C17-producer-fallback-stale-third-repcode (closed witness on the model's ZSTD_finalizeOffBase and R's resolve_offset):
+   a copier whose history differs from the decoder's in the THIRD entry only - what the internal parsers below btopt leave
+   behind after a fallback block - codes raw offset 5 as repeat code 3, which the decoder resolves to 37 *)
+Theorem C17_stale_third_repcode_breaks_lockstep :
+  let enc := (150, 64, 5) in let dec := (150, 64, 37) in
+  let ob := finalize_offbase 5 enc false in
+  ob = 3 /\ resolve_offset ob 1 dec = Ok (37, (37, 150, 64)) /\ resolve_offset ob 1 enc = Ok (5, (5, 150, 64)).
+Proof. exact stale_third_repcode_breaks_lockstep. Qed.
+Print Assumptions C17_stale_third_repcode_breaks_lockstep.
